@@ -51,7 +51,7 @@ def hostile(w):
     if mk is None:
         return {"reproduced": False, "detail": "no catalogue for %r" % (w.get("message"),)}
     cls, part = mk
-    values = {"NewTextVector": ["zz", "", None], "NewNumberVector": ["1", "1.5", "1:30", "0"], "NewSwitchVector": ["On", "Off"],
+    values = {"NewTextVector": ["zz", "", None], "NewNumberVector": ["1", "1.5", "1:30", "0", "9" * 400 + ".0", "9" * 400, "1" + "0" * 400 + ":30", "-" + "9" * 400 + ".5"], "NewSwitchVector": ["On", "Off"],
               "NewBLOBVector": [("YWJj", "3"), ("YWJj", "99"), ("YWJj", "abc"), ("", "0"), (None, "3"), ("!!!", "3")]}[w["message"]]
     names = ["A", "B", "N", "S", "L", "NOPE"]
     probs = []
